@@ -408,9 +408,10 @@ def into_data(val: Convertible, ty: t.Optional[IntoConverter] = None, *,
     """
     inferred = ty is None
     if ty is None:
-        if isinstance(val, _ScalarType) and not isinstance(val, enum.Enum) and custom is None:
+        if type(val) in _ScalarType and custom is None:
             # we can bypass the converter for scalar types
-            # (but not for members of enums which mix in a scalar type: those serialise to their value)
+            # (but not for instances of their subclasses: a member of an enum which mixes in a scalar type
+            # serialises to its value, a `class Name(str)` to a plain `str`, just as a field of that type would)
             return val
         ty = type(val)
 
